@@ -25,6 +25,8 @@ QUICK = [
     # a ticker for a bar that is finished already (the thread exits at once; nobody may wait for a frame of it)
     ("finish_then_enable", False, False, [["finish", "enable", "tick"], ["tick"]]),
     ("finish_vs_enable", False, True, [["finish"], ["enable"]]),
+    # a bar born hidden: steady tick enabled first, the terminal given afterwards; the ticker is there, so the manual ticks stay without effect
+    ("manual_hidden_enable_show", False, False, [["enable", "show", "tick", "tick"], ["tick"]]),
     ("multi_tick_vs_remove", True, False, [["tick"], ["mp_remove"]]),
     ("multi_remove_vs_finish_ticker", True, True, [["finish"], ["mp_remove"]]),
     ("multi_remove_println_mpprintln", True, False, [["mp_remove"], ["println"], ["mp_println"]]),
@@ -133,7 +135,7 @@ def conformance(pid, models, runs):
 
 
 def prog_json(p, sched):
-    return {"setup": {"multi": p["multi"], "bars": 1, "ticker": [1] if p["tk"] else []},
+    return {"setup": {"multi": p["multi"], "bars": 1, "ticker": [1] if p["tk"] else [], "hidden": "hidden" in p["name"]},
             "threads": [[{"op": c, "b": 1} for c in caller] for caller in p["callers"]],
             "schedule": sched, "spincheck": p["name"].startswith("manual_"), "program": p["name"]}
 
